@@ -155,7 +155,7 @@ def site_for_seed(r, k):
         n = r.randrange(1, 7)
         for i in range(n):
             a = p + "/a%d.png" % i
-            kind = r.choice(["ok", "ok", "ok", "404", "503", "reset", "flaky", "redir", "dup", "invalid", "excluded"])
+            kind = r.choice(["ok", "ok", "ok", "404", "503", "reset", "flaky", "redir", "dup", "invalid", "excluded", "trunc"])
             if kind == "ok":
                 add(a, ctype="image/png", body={"kind": "png", "size": r.choice([10, 3000, 70000]), "seed": i + k})
             elif kind == "404":
@@ -164,6 +164,9 @@ def site_for_seed(r, k):
                 add(a, status=503)
             elif kind == "reset":
                 add(a, reset=True)
+            elif kind == "trunc":
+                # the headers arrive, the body dies half way: that URL fails, the rest of the tree goes on
+                add(a, ctype="text/plain", body={"kind": "text", "size": 300000, "seed": i}, truncateAt=150000)
             elif kind == "flaky":
                 add(a, ctype="image/png", body={"kind": "png", "size": 200, "seed": i}, attempts=[{"status": 503}, {}])
             elif kind == "redir":
